@@ -168,9 +168,11 @@ dataLoop:
 		if !dec.IsZero() {
 			amount = amount.AddAmount(sdk.NewInt(1))
 		}
+		// the renewal is requested, signed and paid by the owner of the model, whoever made
+		// the last update (the last order may belong to a read-write grantee)
 		newOrder := ordertypes.Order{
 			Creator:   msg.Creator,
-			Owner:     order.Owner,
+			Owner:     metadata.Owner,
 			Provider:  msg.Provider,
 			Cid:       order.Cid,
 			Duration:  proposal.Duration,
@@ -256,7 +258,11 @@ dataLoop:
 		}
 
 		k.model.ExtendMetaDuration(ctx, metadata.DataId, newExpiredAt)
-		k.model.UpdateMeta(ctx, newOrder)
+		err = k.model.UpdateMeta(ctx, newOrder)
+		if err != nil {
+			// a paid renewal the model does not know about would never be settled
+			return nil, err
+		}
 
 		kv := &types.KV{
 			K: dataId,
